@@ -113,13 +113,32 @@ pub fn run(tier: Tier) -> i32 {
             }
         }
     });
+    let mut acc = acc;
+    // second engine: every history of bounded length, with no state deduplication at all
+    let depth = tier.pick(6usize, 7);
+    let enum_files: Vec<(String, FileSpec)> = files
+        .iter()
+        .filter(|f| ["blocks4-L0", "blocks4-L2", "deep2-n9-L2", "deep2-n17-L3", "emptykey-3blocks", "oneblock-iv3-L1"].contains(&f.0.as_str()))
+        .cloned()
+        .collect();
+    let a2 = par_for(enum_files.len(), 1, &deadline, |i, acc| {
+        let (name, spec) = &enum_files[i];
+        if let Ok((entries, bytes)) = build_file(spec) {
+            let (h, o) = crate::cursor_bfs::enumerate_histories(name, spec, &entries, &bytes, depth, "C03", acc);
+            acc.count("undeduplicated_histories", h);
+            acc.count("undeduplicated_history_operations", o);
+            acc.transitions += o;
+            acc.evaluations += o;
+        }
+    });
+    acc.merge(a2);
     rep.acc = acc;
     let closed_all = rep.acc.counters.get("files_not_closed").copied().unwrap_or(0) == 0;
     rep.set("exhaustive", json!(closed_all));
     rep.set("files", json!(names));
     rep.set(
         "rule",
-        json!("E1 closure: per file, BFS over all reachable (model position, cursor fingerprint) states under the alphabet {first,last,next,prev,reset} + {GE,LE,EQ} x probes (every stored key, key minus last byte, key-1, key++00, key++FF, '', 00, FFFFFFFF); every transition runs on a clone of the real cursor and is compared with the sorted-vector model; distinct_nontrivial = files with >= 2 blocks at some non-root index level"),
+        json!("E1 closure: per file, BFS over all reachable (model position, cursor fingerprint) states under the alphabet {first,last,next,prev,reset} + {GE,LE,EQ} x probes (every stored key, key minus last byte, key-1, key++00, key++FF, '', 00, FFFFFFFF); every transition runs on a clone of the real cursor and is compared with the sorted-vector model; a second engine enumerates ALL histories of length <= d (6 quick, 7 thorough) over a 11-13 symbol alphabet on six files with NO state deduplication (sound even for a change that adds cursor state the fingerprint cannot see); distinct_nontrivial = files with >= 2 blocks at some non-root index level"),
     );
     rep.set("bound", json!("closure (no depth bound) on every listed file"));
     rep.assume("the cursor's future behaviour is a function of the fingerprinted fields (per level recorded offset, loaded block bytes, in-block position; data block bytes and position) — every block load is preceded by an absolute seek, so the source position is irrelevant");
